@@ -14,6 +14,28 @@
 (V)  every variable font of the corpus x seeded limit specifications x locations: projections of
      the original and of the saved instance (harness/c08_project.py) judged by TLC.
 
+The budget TLC grants a whole-font comparison (all terms derived in specs/Trace_C08.tla, none tuned):
+  * 1/2 per rounded stored quantity: the item's default value (nb quantities) and every delta set of the
+    EXACT instance, weighted by its scalar at the location (w quantities per set: 2 for an advance taken
+    from two phantom points, the number of blended operands accumulated along the path for a CFF2
+    coordinate); the delta sets of the exact instance are derived by module Instancer, because a set
+    whose deltas all round to 0 is not stored although its rounding is in the value;  + 1/2 per gvar
+    quantity when the instancer re-ran IUP optimisation (tolerance 1/2, D-IUP);
+  * D-F14: stored normalised coordinates are F2DOT14.  Every region coordinate of the saved instance is
+    the ideal one rounded (<= 1/2 unit each, two of them bound a side of width w: the axis scalar moves by
+    <= 1 / (w - 1) units^-1), an inexact location coordinate is rounded (1/2 unit), knots of the new avar
+    map are rounded (1/2 on the output, 1/2 * slope on the input).  When the requested limits are not on
+    the F2DOT14 grid (fonts without avar only) the instancer quantises them (e1, e2 <= 1/2 unit): a point
+    at new-normalised y corresponds to old-normalised v' = d' + y (M' - d') instead of v = d + y (M - d)
+    on one side of the old default (|v' - v| <= 1/2), and across the old default the renormalisation
+    divides user-space distances: v' - v = e2 - (df - u)/dPos * (dPos e2 - dNeg e1)/total with
+    (df - u) <= default * dPos and default <= total/dPos, i.e. |v' - v| <= 1/2 (2 + dNeg/dPos); TLC grants
+    1/2 (3 + max(dNeg/dPos, dPos/dNeg)) units (LimErrHalf).  A product of axis scalars in [0, 1] moves by at
+    most the sum of the moves of its factors, and a delta enters with its absolute value;
+  * fixed point: values in 1/1024 unit; one unit per multiplication (rounding towards zero), 1/2 unit per
+    inferred (IUP) delta that the harness rounded to that grid;
+  * HarfBuzz's advances are integers: 1/2 more on each side.
+
 Python only drives the code and marshals values; every accept/reject verdict on values is computed
 by TLC.  (A crash of the real function on an in-domain input and a float output that is not within
 1e-9 of a lattice rational are reported directly.)"""
@@ -167,6 +189,8 @@ def store_trace(case, D, fn, rounded, include_full, cmp_):
 
     naxes = len(case["lims"])
     vars_ = [[[list(t) for t in reg], list(ds)] for reg, ds in case["vars"]]
+    if fn == "ivs":
+        rounded = True      # an item store holds integers: there is no un-rounded observation of it
     if fn == "gvar":
         # deltas of a 3-point glyph + 4 phantom points derived from the case's two deltas
         vars_ = [[reg, gvar_deltas(ds)] for reg, ds in vars_]
@@ -221,16 +245,14 @@ def store_trace(case, D, fn, rounded, include_full, cmp_):
                     instancer.instantiateGvarGlyph(font, "g", limits, optimize=False)
             g = font["glyf"]["g"]
             after = list(g.coordinates)
-            hm = font["hmtx"].metrics["g"]
-            # the three outline points are stored as floats until compilation; the phantom points
-            # have been folded into hmtx (advance = rounded difference): items 0..5 are the outline
+            # the three outline points are stored as floats until compilation (the phantom points
+            # have been folded into hmtx): the six outline coordinates are the items
             dflt = []
             for (x0, y0), (x1, y1) in zip(before[:3], after[:3]):
                 dflt += [x1 - x0, y1 - y0]
             tr["vars"] = [[reg, ds[:6]] for reg, ds in vars_]
             tr["n"] = n = 6
             outs = [(dict(v.axes), [c for pt in v.coordinates[:3] for c in pt]) for v in font["gvar"].variations.get("g", [])]
-            tr["adv"] = [hm[0], rat(before[4][0] - before[3][0])]
         else:
             raise MachineryError("unknown function " + fn)
     except MachineryError:
